@@ -18,12 +18,14 @@ CONSTANTS Ctors,      \* subset of node constructors to enumerate
           MaxSubs,    \* subscriptions per behaviour
           MaxVars, MaxNodes, MaxObs, MaxActs, MaxRounds, MaxH,
           Late,       \* BOOLEAN: allow node creation after the first observer
+          Prog,       \* a scripted program (sequence of creation actions) executed first; <<>> = none
           Export,     \* BOOLEAN: print REPLAY lines
           ExportMod   \* export about one behaviour in ExportMod (seeded sampling)
 
-VARIABLES st, hist, coneB, acts
+VARIABLES st, hist, coneB, acts,
+          noops   \* API actions so far that left the engine state unchanged (see Do)
 
-vars == <<st, hist, coneB, acts>>
+vars == <<st, hist, coneB, acts, noops>>
 Vals == {I(x) : x \in 0..(K - 1)}
 PVals == {P(a, b) : a \in 0..(K - 1), b \in 0..1}
 NVals == {NR(n) : n \in {m \in 1..st.n : st.def[m].k \in {"var", "const", "map", "map2"} /\ st.scope[m] = 0
@@ -43,7 +45,8 @@ IntNodes == {n \in Visible : (st.def[n].k \in {"var", "const", "map", "map2", "f
                              /\ ~(st.def[n].k = "mwo" /\ st.def[n].f \in {"dup", "pair0", "halfp", "swap"})}
 PairNodes == {n \in Visible \ IntNodes : ~(st.def[n].k = "mapref" /\ st.def[n].f = "id" /\ st.def[n].ins[1] \in IntNodes)}
 NumVars == Cardinality({n \in Nodes : st.def[n].k = "var"})
-Creating == st.n < MaxNodes /\ (Late \/ st.no = 0)
+Scripting == acts < Len(Prog)
+Creating == ~Scripting /\ st.n < MaxNodes /\ (Late \/ st.no = 0)
 
 \* every API action is followed by the reads the reference predicts at that point (C07, C10)
 ReadsOf(s) == [a |-> "expect",
@@ -52,13 +55,22 @@ ReadsOf(s) == [a |-> "expect",
                rets |-> s.retLog]
 \* (s is the result of the action applied to st; only what the action itself returned is kept)
 OnlyNewRets(s) == IF Ok(s) THEN [s EXCEPT !.retLog = SubSeq(@, Len(st.retLog) + 1, Len(@))] ELSE s
-Do(a, s) == /\ st' = Settle(HoldFor(a, OnlyNewRets(s)))
-            /\ hist' = IF Ok(s) /\ a.a \in {"write", "observe", "observe_leaked", "obs_drop", "obs_clone", "disallow",
-                                           "subscribe", "unsubscribe", "state_unsubscribe", "drop", "drop_var"}
-                       THEN Append(Append(hist, a), ReadsOf(Settle(HoldFor(a, OnlyNewRets(s)))))
-                       ELSE Append(hist, a)
-            /\ acts' = acts + 1
-            /\ UNCHANGED coneB
+\* Behaviours are exported once per distinct state (VIEW), so a history containing an action that the
+\* spec treats as a no-op (a second unsubscribe of the same token, a write of ... ) would never be
+\* exported: the shorter history reaches the same state first.  Code that mishandles exactly such
+\* calls would escape.  One no-op per behaviour is therefore made part of the state.
+MaxNoops == 1
+Do(a, s) == LET r == Settle(HoldFor(a, OnlyNewRets(s)))
+                same == Ok(r) /\ [r EXCEPT !.retLog = st.retLog] = st
+            IN /\ st' = r
+               /\ noops' = IF same THEN noops + 1 ELSE noops
+               /\ noops' <= MaxNoops
+               /\ hist' = IF Ok(s) /\ a.a \in {"write", "observe", "observe_leaked", "obs_drop", "obs_clone", "disallow",
+                                              "subscribe", "unsubscribe", "state_unsubscribe", "drop", "drop_var"}
+                          THEN Append(Append(hist, a), ReadsOf(r))
+                          ELSE Append(hist, a)
+               /\ acts' = acts + 1
+               /\ UNCHANGED coneB
 
 ---------------------------------------------------------------------------
 (* Program construction                                                     *)
@@ -179,7 +191,7 @@ Create ==
 
 ---------------------------------------------------------------------------
 (* Histories                                                                *)
-Budget == acts < MaxActs
+Budget == acts < MaxActs /\ ~Scripting
 Write ==
   /\ Quiet /\ Budget
   /\ \E v \in {n \in Nodes : st.def[n].k = "var" /\ n \in st.vhandles}, op \in Ops :
@@ -251,24 +263,30 @@ DropHandle ==
   /\ \/ \E n \in st.handles \ st.vhandles : Do([a |-> "drop", n |-> n], ApiDropHandle(st, n))
      \/ \E v \in st.vhandles : Do([a |-> "drop_var", n |-> v], ApiDropVar(st, v))
 
+\* directed exhaustive families: a fixed program whose histories are enumerated
+Scripted ==
+  /\ Quiet /\ Scripting
+  /\ LET a == Prog[acts + 1] IN Do(a, ApplyRaw(st, a))
+
 Begin ==
-  /\ Quiet /\ st.round < MaxRounds
+  /\ Quiet /\ ~Scripting /\ st.round < MaxRounds
   /\ st' = StabiliseBegin(ApiClearLogs(st))
   /\ hist' = Append(hist, [a |-> "stabilise"])
   /\ coneB' = ConeOf(st, ObservedNodes(st, LiveObs(st) \cup LinkedObs(st)), {})
   /\ acts' = acts + 1
+  /\ UNCHANGED noops
 Step ==
   /\ Ok(st) /\ ~st.poisoned /\ st.status = "stabilising" /\ (st.chain # 0 \/ ~HeapEmpty(st))
   /\ st' = StabiliseStep(st)
-  /\ UNCHANGED <<hist, coneB, acts>>
+  /\ UNCHANGED <<hist, coneB, acts, noops>>
 EndA ==
   /\ Ok(st) /\ ~st.poisoned /\ st.status = "stabilising" /\ st.chain = 0 /\ HeapEmpty(st)
   /\ st' = StabiliseEndA(st)
-  /\ UNCHANGED <<hist, coneB, acts>>
+  /\ UNCHANGED <<hist, coneB, acts, noops>>
 HandlersStep ==
   /\ Ok(st) /\ ~st.poisoned /\ ~st.poisoned /\ st.status = "handlers" /\ st.runq # <<>>
   /\ st' = StabiliseHandlersStep(st)
-  /\ UNCHANGED <<hist, coneB, acts>>
+  /\ UNCHANGED <<hist, coneB, acts, noops>>
 
 \* the reference prediction exported with each behaviour
 SortedInv(s) ==
@@ -299,6 +317,7 @@ Expect(s) ==
                         IN <<m>> \o Go(t \ {m})
            IN Go(d),
    released |-> [n \in 1..s.n |-> n \in Released(StabiliseFinish(s))],
+   necessary |-> Cardinality({n \in 1..s.n : Alive(s, n) /\ Nec(s, n)}),
    memo |-> s.memoLog,
    cut |-> s.cutLog,
    inreads |-> s.readLog,
@@ -309,7 +328,7 @@ Finish ==
   /\ Ok(st) /\ ~st.poisoned /\ st.status = "handlers" /\ st.runq = <<>>
   /\ st' = Settle(StabiliseFinish(st))
   /\ hist' = Append(hist, Expect(st))
-  /\ UNCHANGED <<coneB, acts>>
+  /\ UNCHANGED <<coneB, acts, noops>>
 
 \* a panic escaped the last public call and is caught by the caller
 PanicClass(s) == CASE s.panic = "panic:user" -> "user" [] s.panic = "panic:status" -> "status"
@@ -322,21 +341,21 @@ RecoverA ==
   /\ st' = Recover(st)
   /\ hist' = Append(hist, [a |-> "expect_panic", class |-> PanicClass(st),
                            reads |-> [o \in 1..st.no |-> RefReadS(Recover(st), o)]])
-  /\ UNCHANGED <<coneB, acts>>
+  /\ UNCHANGED <<coneB, acts, noops>>
 \* C13/C19: a further stabilise on a poisoned state refuses to run
 BeginPoisoned ==
   /\ Ok(st) /\ st.poisoned /\ st.status # "idle" /\ acts < MaxActs
   /\ st' = StabiliseBegin(ApiClearLogs(st))
   /\ hist' = Append(hist, [a |-> "stabilise"])
   /\ acts' = acts + 1
-  /\ UNCHANGED coneB
+  /\ UNCHANGED <<coneB, noops>>
 
-Init == /\ st = InitState(MaxH) /\ hist = <<>> /\ coneB = {} /\ acts = 0
-Next == Create \/ CloneObs \/ SetMaxH \/ DropHandle \/ Write \/ SubscribeA \/ UnsubscribeA \/ Observe \/ ObserveLeaked \/ DropObs \/ Disallow
+Init == /\ st = InitState(MaxH) /\ hist = <<>> /\ coneB = {} /\ acts = 0 /\ noops = 0
+Next == Scripted \/ Create \/ CloneObs \/ SetMaxH \/ DropHandle \/ Write \/ SubscribeA \/ UnsubscribeA \/ Observe \/ ObserveLeaked \/ DropObs \/ Disallow
         \/ Begin \/ Step \/ EndA \/ HandlersStep \/ Finish \/ RecoverA \/ BeginPoisoned
 Spec == Init /\ [][Next]_vars
 \* counters and the round number never influence behaviour: keep them out of the fingerprint
-View == <<[st EXCEPT !.stats = 0, !.round = 0]>>
+View == <<[st EXCEPT !.stats = 0, !.round = 0], noops>>
 
 ---------------------------------------------------------------------------
 (* Invariants (property predicates of IncrRef on the engine state)          *)
@@ -362,6 +381,32 @@ Done == /\ Ok(st) /\ Len(hist) > 0
            \/ (st.poisoned /\ acts >= MaxActs /\ hist[Len(hist)].a = "expect_panic")
 InvExport == (Export /\ Done /\ (ExportMod = 1 \/ RandomElement(1..ExportMod) = 1))
                 => PrintT(<<"REPLAY", ToJson(hist)>>)
+
+---------------------------------------------------------------------------
+(* Scripted programs (shapes that need more nodes than exhaustive program enumeration reaches) *)
+NoProg == <<>>
+\* a cut-off input under a dependant that loses and regains its observer (K = 3)
+ProgCutReobs == <<[a |-> "var", v |-> I(1)], [a |-> "map", f |-> "min1", in |-> 1, eff |-> <<>>],
+                  [a |-> "map", f |-> "id", in |-> 2, eff |-> <<>>]>>
+\* a bind whose lhs has another dependant, whose right-hand sides are an outer chain taller than
+\* its lhs_change node and a second var, with a plain map on top (K = 2)
+ProgBindTall == <<[a |-> "var", v |-> I(0)], [a |-> "var", v |-> I(0)], [a |-> "var", v |-> I(1)],
+                  [a |-> "map", f |-> "id", in |-> 2, eff |-> <<>>], [a |-> "map", f |-> "id", in |-> 4, eff |-> <<>>],
+                  [a |-> "bind", in |-> 1, recipe |-> [r |-> "pick", alts |-> <<5, 3>>]],
+                  [a |-> "map", f |-> "id", in |-> 7, eff |-> <<>>],
+                  [a |-> "map", f |-> "id", in |-> 1, eff |-> <<>>]>>
+\* a bind that switches to taller and taller right-hand sides under a map2 consumer (K = 3)
+ProgGrow == <<[a |-> "var", v |-> I(0)], [a |-> "var", v |-> I(0)],
+              [a |-> "bind", in |-> 1, recipe |-> [r |-> "alt", alts |-> <<[r |-> "pick", alts |-> <<2, 2, 2>>],
+                                                                   [r |-> "chain", f |-> "add", over |-> 2, len |-> 2],
+                                                                   [r |-> "chain", f |-> "add", over |-> 2, len |-> 4]>>]],
+              [a |-> "map2", f |-> "add", in |-> <<4, 2>>]>>
+\* pair var -> map_ref with an order-sensitive cutoff -> dependant (K = 3)
+ProgRefCut == <<[a |-> "var", v |-> P(0, 0)], [a |-> "mapref", f |-> "fst", in |-> 1],
+                [a |-> "cutoff", n |-> 2, c |-> "le"], [a |-> "map", f |-> "id", in |-> 2, eff |-> <<>>]>>
+\* two vars, a map on the first that updates the second while stabilising (K = 2)
+ProgUpdateOther == <<[a |-> "var", v |-> I(0)], [a |-> "var", v |-> I(0)],
+                     [a |-> "map", f |-> "id", in |-> 1, eff |-> <<[e |-> "set", v |-> 2, op |-> "update", x |-> NoVal]>>]>>
 
 \* compact view of a state for counterexamples
 Alias == [status |-> st.status, panic |-> st.panic, num |-> st.num, chain |-> st.chain,
